@@ -127,6 +127,15 @@ def _case(draw):
                           "metric_dict": (None if gamma is None
                                           else {"gamma": gamma}),
                           "class_prior": prior}}
+        if draw(st.integers(0, 3)) == 0:
+            # kernels that are not translation invariant (fixed parameters)
+            metric, md = draw(st.sampled_from([
+                ("linear", None), ("polynomial", {"degree": 2, "gamma": 0.5,
+                                                  "coef0": 1.0}),
+                ("cosine", None), ("laplacian", {"gamma": 0.5}),
+                ("sigmoid", {"gamma": 0.1, "coef0": 0.5})]))
+            cfg["params"]["metric"] = metric
+            cfg["params"]["metric_dict"] = md
     elif comp == "NIC":
         gamma = draw(st.sampled_from([None, 0.1, 0.5, 1.0, 2.0]))
         params = {"metric": "rbf",
@@ -239,6 +248,14 @@ def _case(draw):
     case = dict(component=clfreg.label(cfg), cfg=cfg, labels=labels,
                 n_annotators=A, Xl=Xl, yl=yl, wl=wl, UA=UA, UB=UB,
                 variant=variant, Xq=Xq, hidden=hidden)
+    if variant != "reveal" and draw(st.integers(0, 29)) == 0:
+        # side A only: a bulk of more than a thousand unlabeled rows (drawn in
+        # the check from the given seed, to keep the case small) before,
+        # after or in the middle of the labeled rows
+        case["bulk"] = {"n": draw(st.sampled_from([1030, 1100, 1500, 2100])),
+                        "seed": draw(st.integers(0, 99)),
+                        "pos": draw(st.sampled_from(["front", "front",
+                                                     "middle", "back"]))}
     if comp == "ALR" and weighted and draw(st.booleans()):
         # a missing ENTRY of a partially labeled row is an unlabeled sample
         # of that annotator: its weight is irrelevant as well (side B gets
@@ -278,6 +295,19 @@ def _assemble(case, U, side="A"):
             w.append(None if wl is None else wl[p])
     if case["wl"] is None:
         w = None
+    bulk = case.get("bulk")
+    if bulk and side == "A":
+        d = len(case["Xq"][0])
+        rs = np.random.RandomState(bulk["seed"])
+        rows = np.round(rs.uniform(-3, 3, size=(bulk["n"], d)), 2).tolist()
+        at = {"front": 0, "back": len(X), "middle": len(X) // 2}[bulk["pos"]]
+        miss_y = [list(miss) if isinstance(miss, list) else miss
+                  for _ in rows]
+        X = X[:at] + rows + X[at:]
+        y = y[:at] + miss_y + y[at:]
+        if w is not None:
+            one = [1.0] * A if A else 1.0
+            w = w[:at] + [one] * len(rows) + w[at:]
     return X, y, w
 
 
@@ -360,6 +390,10 @@ def run_case(case):
         lab.append(f"classes={'str' if isinstance(case['labels'][0], str) else 'arange' if clfreg.is_arange(case['labels']) else 'ints'}")
     if case.get("wl_B"):
         lab.append("missing_entry_reweighted")
+    if case.get("bulk"):
+        lab.append(f"bulk_unlabeled={case['bulk']['pos']}")
+    if kind == "ParzenWindowClassifier":
+        lab.append(f"pwc_metric={cfg['params'].get('metric', 'rbf')}")
     viol = []
     sides = {}
     for name, U in (("A", case["UA"]), ("B", case["UB"])):
@@ -388,7 +422,8 @@ def run_case(case):
             viol.append(exc_violation(comp, r, trig, f"side {name}"))
         else:
             sides[name] = r
-    nontrivial = ((nA + nB) >= 1 or bool(case.get("wl_B"))) and n_lab >= 2
+    nontrivial = ((nA + nB) >= 1 or bool(case.get("wl_B"))
+                  or bool(case.get("bulk"))) and n_lab >= 2
     if viol or len(sides) < 2:
         return Outcome(viol, nontrivial and not viol, lab)
 
